@@ -1,3 +1,4 @@
+mod gen_clvm;
 mod ops_clvm;
 mod pool;
 mod rich;
@@ -25,6 +26,7 @@ fn main() {
     match args[1].as_str() {
         "worker" => pool::worker_main(handle),
         "replay-clvm" => p_clvm::replay(&rest),
+        "drive-clvm" => p_clvm::drive(&rest),
         "job" => {
             // run one job given as JSON on the command line, in process (for replay files)
             let j: Value = serde_json::from_str(&args[2]).expect("json job");
